@@ -891,7 +891,7 @@ theorem kron_eq_spec (sa sb : Shape) (hpb : Pos sb) :
     refine ⟨e, he, by rw [hesh, hshape], ?_⟩
     intro d hd
     rw [hshape] at hd
-    obtain ⟨yl, yr, rfl, hyl, hyr⟩ := inShape_append_split hd
+    obtain ⟨yl, yr, rfl, hyl, hyr⟩ := mb_inShape_append_split hd
     rw [heget yl yr hyl hyr, (specKron_le sa Lb Rb yl yr hRl hyl.length_eq).2, zipWith_mod_self hyl]
   · have hgt : sb.length < sa.length := by omega
     have hsa : sa = sa.take (sa.length - sb.length) ++ sa.drop (sa.length - sb.length) := (List.take_append_drop _ _).symm
@@ -907,7 +907,7 @@ theorem kron_eq_spec (sa sb : Shape) (hpb : Pos sb) :
     refine ⟨e, he, by rw [hesh, hshape], ?_⟩
     intro d hd
     rw [hshape] at hd
-    obtain ⟨yl, yr, rfl, hyl, hyr⟩ := inShape_append_split hd
+    obtain ⟨yl, yr, rfl, hyl, hyr⟩ := mb_inShape_append_split hd
     rw [heget yl yr hyl hyr, (specKron_gt La Ra sb yl yr hRl hyl.length_eq).2, ← hyl.length_eq, zipWith_div_ones]
 
 end NmVerif
